@@ -258,3 +258,29 @@ def c04(ctx):
                     trace_module="Trace_C04", sigfn=V.default_sig,
                     assumptions=["TLC/SANY and the JVM", "module Wide (checked against TLC integers by MC_Wide)",
                                  "the 4-bit PTS prefix is not constrained (the three legal PES prefixes differ); marker bits must be 1"])
+
+
+# ---------------------------------------------------------------- C03
+
+def c03_sig(e, reason):
+    if reason.startswith("get-"):
+        return "getter/" + reason          # a getter defect shows up after every operation
+    return V.default_sig(e, reason)
+
+
+@prop("C03", "Trace_C03", c03_sig)
+def c03(ctx):
+    thorough = ctx.tier == "thorough"
+    V.mc(ctx, "MC_C03", cfg="MC_C03_thorough.cfg" if thorough else "MC_C03.cfg", workers=12)
+    summ = V.gen_traces(ctx, shards=12)
+    V.validate(ctx, "Trace_C03", summ, c03_sig, par=12)
+    if ctx.skipped > 0.25 * max(1, ctx.events):
+        raise V.Broken("%d of %d events were skipped because `before` was not canonical" % (ctx.skipped, ctx.events))
+    return V.finish(ctx, "model_checking",
+                    rule="MC: the complete reachable graph of the logical adaptation field under all edit operations (lengths 1..23 sample, two PCR values, four data values): "
+                         "Parse(Ser(a)) = a, canonical, error => unchanged. B3: from every adaptation_field_length 1..183 (with and without payload, blank and randomly populated), "
+                         "random histories of all 16 setters (fill-to-capacity biased, copy from another packet) on real packets; every step logs all 188 bytes before/after, the error "
+                         "and all getters of both accessor families, validated by TLC as AdaptationField!Apply on the parsed record. class = (operation, length bucket, error, changed)",
+                    trace_module="Trace_C03", sigfn=c03_sig,
+                    assumptions=["TLC/SANY and the JVM", "a line whose `before` is no longer canonical (after a rejected line) is skipped, counted in trace_events_skipped_by_spec",
+                                 "the value of a newly present PCR/OPCR/splice countdown is unspecified and bound to the observed bytes"])
